@@ -13,7 +13,14 @@ func (t *TransactionManager) VerifOpenTransaction() (id string, timerArmed bool)
 	tr := t.transaction
 	if tr.timer != nil {
 		tr.timer.doneMutex.Lock()
-		timerArmed = tr.timer.done != nil
+		if tr.timer.done != nil {
+			select {
+			case <-tr.timer.done:
+				// stopped, the timer goroutine just did not get to run yet
+			default:
+				timerArmed = true
+			}
+		}
 		tr.timer.doneMutex.Unlock()
 	}
 	return tr.transactionId, timerArmed
